@@ -8,6 +8,7 @@ import (
 	"fmt"
 	"os"
 	"os/exec"
+	"runtime"
 	"strings"
 	"sync"
 	"time"
@@ -27,7 +28,12 @@ func scenarios(tier string) []clustermc.Scenario {
 	// no duplication: the transport (TCP streams, no retransmission) never delivers a message twice and the statement does not ask for it;
 	// a duplicated forwarded MsgProp is appended and applied twice (observed, see DESIGN.md C04)
 	faults := clustermc.Budget{Drop: 1, Stop: 1, Transfer: 1, Tick: 2, Timeout: 1}
+	kk := func(i int) string { return fmt.Sprintf("%s:t:k%d", clustermc.NS, i) }
+	gs := func(i int, v string) clustermc.Op { return clustermc.Op{Cmd: []string{"getset", kk(i), v}} }
 	return []clustermc.Scenario{
+		// every write on its own key: a replica that applies another command than the one that was
+		// acknowledged (a payload changed between proposal and replication) ends with other data
+		{Name: "distinct-keys", Progs: [][]clustermc.Op{{gs(1, "a"), gs(2, "b"), gs(3, "c")}, {gs(4, "d")}}, Keys: [][]string{{"get", kk(1)}, {"get", kk(2)}, {"get", kk(3)}, {"get", kk(4)}}, Max: faults, Horizon: 90},
 		{Name: "two-clients-incr", Progs: [][]clustermc.Op{{incr(0), incr(0)}, {incr(0)}}, Keys: keys, Max: faults, Horizon: 90},
 		{Name: "getset-setnx", Progs: [][]clustermc.Op{{getset("a", 0), setnx("x", 0)}, {getset("b", 0)}}, Keys: keys, Max: faults, Horizon: 90},
 		{Name: "call-at-follower", Progs: [][]clustermc.Op{{incr(2), incr(1)}, {incr(3)}}, Keys: keys, Max: faults, Horizon: 90},
@@ -120,6 +126,10 @@ func outcomeOf(x *clustermc.Exec) string {
 }
 
 func workerMain(scName, tier string, bound, w, W int, budget time.Duration) {
+	// one P: goroutines interleave only at blocking points and sync.Pool hands a released object to the next
+	// taker (a pooled buffer that is still referenced is then really reused), both make an execution more
+	// a function of its choice list
+	runtime.GOMAXPROCS(1)
 	raft.VerifSetRandDraw(4)
 	var sc clustermc.Scenario
 	for _, s := range scenarios(tier) {
